@@ -836,7 +836,9 @@ func (d *DotGit) ObjectsWithPrefix(prefix []byte) ([]plumbing.Hash, error) {
 				return bytes.Compare(d.objectList[i].Bytes(), limPrefix) >= 0
 			})
 		}
-		return d.objectList[first:lim], nil
+		// Cap the slice so that callers appending to the result
+		// cannot overwrite the cached list.
+		return d.objectList[first:lim:lim], nil
 	}
 
 	// This is the slow path.
